@@ -65,6 +65,8 @@ MonInit(cfg) ==
     pulled    |-> [t \in T |-> FALSE],
     sawEnd    |-> [t \in T |-> FALSE],
     cur       |-> [t \in T |-> << >>],    \* values visited by the composite op in flight
+    lastCl    |-> [t \in T |-> -1],      \* last position visited by the closure of t's composite op in flight
+    lostOK    |-> {},                     \* positions a panicking closure's own chunk may legitimately lose
     memEnd    |-> -1,
     done      |-> FALSE ]
 
@@ -87,8 +89,19 @@ Remaining(m) == Cardinality({p \in DOMAIN m.deliv : m.deliv[p] = 0})
 (* Quiescent predicates, evaluated after every return that leaves no        *)
 (* delivering call in flight.                                               *)
 (***************************************************************************)
+\* Only user closures panicked (no fault armed in the wrapped iterator, a clone or a destructor): an end report
+\* is then still truthful - every position has been delivered, dropped by the unwinding call, or belongs to the
+\* part of the panicking call's own chunk that it had not visited yet.
+ClosurePanicsOnly(m) == m.cfg.faults = 0
+QuiescePanic(m) ==
+  IF m.inflight = 0 /\ ~m.skipCalled /\ m.endRet /\ ClosurePanicsOnly(m)
+     /\ \E p \in DOMAIN m.deliv : m.deliv[p] = 0 /\ m.drops[p] = 0 /\ p \notin m.lostOK
+  THEN AddFlags(m, {"NoFalseEnd_panic"}) ELSE m
+
 Quiesce(m) ==
-  IF m.inflight # 0 \/ m.panicSeen \/ m.lowLevel THEN m
+  IF m.lowLevel THEN m
+  ELSE IF m.panicSeen THEN QuiescePanic(m)
+  ELSE IF m.inflight # 0 THEN m
   ELSE AddFlags(m,
          (IF ~m.skipCalled /\ ~IsPrefixSet(m) THEN {"Prefix"} ELSE {})
     \cup (IF ~m.skipCalled /\ m.endRet /\ ~AllOnce(m) THEN {"NoFalseEnd"} ELSE {})
@@ -128,7 +141,7 @@ Move(m, ps) ==
 (* Call events                                                              *)
 (***************************************************************************)
 MCall(m, t, op, n) ==
-  LET m1 == [m EXCEPT !.op[t] = op, !.n[t] = n, !.cur[t] = << >>,
+  LET m1 == [m EXCEPT !.op[t] = op, !.n[t] = n, !.cur[t] = << >>, !.lastCl[t] = -1,
                       !.inflightQ = @ + 1]
   IN CASE op \in PullOps \cup CompOps ->
             [m1 EXCEPT !.floor[t] = m.hiRet,
@@ -156,7 +169,8 @@ MCall(m, t, op, n) ==
 (* Visit: one element handed to the closure / loop body of a composite op.  *)
 (* idx = -1 when the operation reports no index.                            *)
 (***************************************************************************)
-MVisit(m, t, idx, val, pidx) ==
+\* unwind = TRUE: the element was pulled by a guard of the caller while its closure's panic unwinds
+MVisitU(m, t, idx, val, pidx, unwind) ==
   LET p  == PosOf(m, val)
       op == m.op[t]
       fe == op \in LoopOps
@@ -166,7 +180,9 @@ MVisit(m, t, idx, val, pidx) ==
       m1 == AddFlags(m, f1 \cup f2 \cup f3)
       m2 == IF p >= 0 THEN Deliver(m1, t, {p}, op) ELSE m1
       m3 == IF p >= 0 THEN Move(m2, {p}) ELSE m2
-  IN [m3 EXCEPT !.cur[t] = Append(@, val)]
+  IN [m3 EXCEPT !.cur[t] = Append(@, val), !.lastCl[t] = IF unwind THEN @ ELSE p]
+
+MVisit(m, t, idx, val, pidx) == MVisitU(m, t, idx, val, pidx, FALSE)
 
 (***************************************************************************)
 (* Return events.  res is a record with field k:                            *)
@@ -298,8 +314,10 @@ MRet(m, t, res) ==
                   ELSE {}
          IN AddFlags(m0, f)
     [] res.k = "panic" ->
-         LET f == IF ExpectedPanic(m, t, res) THEN {} ELSE {"Panic"} IN
-         AddFlags([m0 EXCEPT !.panicSeen = (@ \/ pull)], f)
+         LET f == IF ExpectedPanic(m, t, res) THEN {} ELSE {"Panic"}
+             win == IF op \in LoopOps /\ m.n[t] > 1 /\ m.lastCl[t] >= 0
+                    THEN {m.lastCl[t] + j : j \in 1..(m.n[t] - 1)} ELSE {} IN
+         AddFlags([m0 EXCEPT !.panicSeen = (@ \/ pull), !.lostOK = @ \cup win], f)
     [] OTHER -> m0
 
 (***************************************************************************)
@@ -358,7 +376,7 @@ FlagsOf(c) ==
     [] c = "C09" -> {"Hang"}
     [] c = "C10" -> {"SeqWrong"}
     [] c = "C11" -> {"LenIncreased", "LenWrong", "NotNoAfterEnd", "MaybeOnKnown", "NoDefinitive", "YesZero"}
-    [] c = "C12" -> {"NoDup_fe", "Index_fe", "FoldResult"}
+    [] c = "C12" -> {"NoDup_fe", "Index_fe", "FoldResult", "NoFalseEnd_panic"}
     [] c = "C13" -> {"CloneCount", "SrcDropped", "SrcModified"}
     [] c = "C15" -> {"Leak"}
     [] c = "C17" -> {"Abort", "Panic"}
